@@ -592,6 +592,15 @@ def _immutable(d):
     if isinstance(d, ast.Call) and ((isinstance(d.func, ast.Name) and d.func.id in ('namedtuple', 'NamedTuple')) or
                                     (isinstance(d.func, ast.Attribute) and d.func.attr in ('namedtuple', 'NamedTuple'))):
         return True          # a record type: a class definition, not state
+    if isinstance(d, ast.Call) and ast.unparse(d.func) in ('logging.getLogger', 'getLogger'):
+        return True          # the module's logger: diagnostics, it carries nothing of a simulation
+    TYPING = {'Union', 'Optional', 'List', 'Dict', 'Tuple', 'Callable', 'Any', 'Sequence', 'Iterable', 'Mapping', 'Type', 'Set', 'FrozenSet', 'Literal', 'Final', 'ClassVar'}
+    if isinstance(d, ast.Subscript) and ((isinstance(d.value, ast.Name) and d.value.id in TYPING) or (isinstance(d.value, ast.Attribute) and d.value.attr in TYPING)):
+        return True          # a type alias
+    if isinstance(d, ast.Call) and ast.unparse(d.func) in ('TypeVar', 'typing.TypeVar', 'NewType', 'typing.NewType'):
+        return True
+    if isinstance(d, ast.Call) and isinstance(d.func, ast.Name) and d.func.id in ('staticmethod', 'classmethod') and len(d.args) == 1 and isinstance(d.args[0], (ast.Name, ast.Attribute)):
+        return True          # `name = staticmethod(function)`: a method of the class, not state
     return False
 
 
